@@ -15,7 +15,8 @@ RULE = ('cases = real edit_distance_join executions: U exhaustive universes (all
         'alphabet up to a length bound on both sides) x thresholds x q x padding x set/bag tokenizer x '
         'operator; NB seeded mutation neighbourhoods (random strings incl. pad characters, unicode, '
         'strings shorter than q, and their <=k+1-edit neighbours) in random table contexts; ONE 1x1 '
-        'tables (shared q-grams are the most frequent = last in order). Non-trivial = at least one '
+        'tables (shared q-grams are the most frequent = last in order); LARGE tables of 1100 to 6000 rows '
+        'with planted pairs (every output row judged exactly, completeness on the planted pairs). Non-trivial = at least one '
         'pair satisfies the comparison and shares a q-gram; distinct = distinct (universe|seed, q, '
         'padding, mode, k, op).')
 ASSUMPTIONS = ['py_stringmatching QgramTokenizer is trusted (fresh instance = reference q-gram bags)',
